@@ -1351,6 +1351,59 @@ fn part_cyclic_dense(n: usize, range: i64, seed: u64) -> Tally {
     t
 }
 
+/// Part K: block anti-diagonal matrices [[0, A], [B, 0]] with dense scrambled blocks: the first
+/// columns start with a run of zeros, so the pivot order of the echelon builder is not the
+/// identity when the 8-row blocked elimination runs (dimension 18 and more).
+fn part_antidiag(a: usize, b: usize, variant: u64) -> Tally {
+    let mut t = Tally::default();
+    let da: Vec<i64> = (0..a).map(|i| [1i64, 1, 2, 1, -3, 1, 1, 5, 1, 1, 7, 1][(i + variant as usize) % 12]).collect();
+    let db: Vec<i64> = (0..b).map(|i| [1i64, -1, 1, 3, 1, 1, 2, 1, 1, 1, 11, 1][(i + 2 * variant as usize) % 12]).collect();
+    let (ma, deta) = scrambled(a, &da, 30, variant * 31 + a as u64);
+    let (mb, detb) = scrambled(b, &db, 30, variant * 37 + b as u64 + 1000);
+    let n = a + b;
+    let mut m: Mat = vec![vec![0; n]; n];
+    for i in 0..a {
+        for j in 0..a {
+            m[i][b + j] = ma[i][j];
+        }
+    }
+    for i in 0..b {
+        for j in 0..b {
+            m[a + i][j] = mb[i][j];
+        }
+    }
+    let sign: i128 = if (a * b) % 2 == 1 { -1 } else { 1 };
+    let det = sign * deta * detb;
+    let fam = format!("anti-diagonal-{a}+{b}");
+    let id = || format!("[[0, A],[B, 0]] with A {a}x{a}, B {b}x{b} scrambled diagonal forms, variant {variant}, det {det}");
+    if det_mod_ref(&m, REF_P) != mod_i128(det, REF_P) {
+        t.bad.push(("what=MACHINERY".into(), format!("anti-diagonal: tracked determinant disagrees with reference elimination ({})", id()), String::new()));
+        return t;
+    }
+    t.states += 1;
+    t.evals += 2;
+    if det.abs() >= 2 {
+        check_det_matz(&m, &i4096_of_i128(det), log2_abs_i128(det), &fam, &id, &mut t.bad);
+    }
+    check_echelon(&m, &|p| mod_i128(det, p), &fam, &id, &mut t.bad);
+    // rows shuffled by a fixed rotation as well (other pivot orders)
+    let mut m2 = m.clone();
+    m2.rotate_left(n / 3);
+    let s2: i128 = if ((n / 3) * (n - n / 3)) % 2 == 1 { -1 } else { 1 };
+    let det2 = det * s2;
+    if det_mod_ref(&m2, REF_P) != mod_i128(det2, REF_P) {
+        t.bad.push(("what=MACHINERY".into(), format!("anti-diagonal: rotated determinant sign ({})", id()), String::new()));
+        return t;
+    }
+    let id2 = || format!("{} rows rotated by {}", id(), n / 3);
+    t.evals += 2;
+    if det2.abs() >= 2 {
+        check_det_matz(&m2, &i4096_of_i128(det2), log2_abs_i128(det2), &fam, &id2, &mut t.bad);
+    }
+    check_echelon(&m2, &|p| mod_i128(det2, p), &fam, &id2, &mut t.bad);
+    t
+}
+
 /// Part H: lattices whose successive minors need different numbers of CRT moduli: the rows are
 /// r0 = (d0,0,0), r1 = (1,d1,0), k1*r2 + r0, k2*r2 + r1 with r2 = (0,1,1) and gcd(k1,k2) = 1, so
 /// the lattice is the one generated by r0, r1, r2 (index d0*d1) but the first minors are k1*h
@@ -1422,6 +1475,7 @@ enum Job {
     MinorSteps(u32, u32),
     BigIndex(f64, usize, u64),
     CyclicDense(usize, i64, u64),
+    AntiDiag(usize, usize, u64),
 }
 
 fn run_job(j: &Job) -> Tally {
@@ -1436,6 +1490,7 @@ fn run_job(j: &Job) -> Tally {
         Job::MinorSteps(a, b) => part_minor_steps(*a, *b),
         Job::BigIndex(b, e, v) => part_big_index(*b, *e, *v),
         Job::CyclicDense(n, r, v) => part_cyclic_dense(*n, *r, *v),
+        Job::AntiDiag(a, b, v) => part_antidiag(*a, *b, *v),
     }
 }
 
@@ -1539,7 +1594,17 @@ pub fn run(ctx: &Ctx) -> Report {
     jobs.push(Job::Bm(pbig, 3, vec![0, 1, pbig - 1, (pbig + 1) / 2]));
     let p63 = crate::refmodel::prev_prime_u64(1 << 63);
     jobs.push(Job::Bm(p63, 2, vec![0, 1, p63 - 1, 3, 1 << 62]));
+    // longer sequences over the smallest fields: degree drops of more than one in the
+    // Euclidean remainder sequence are frequent there
+    jobs.push(Job::Bm(3, 4, vec![0, 1, 2]));
+    jobs.push(Job::Bm(3, 5, vec![0, 1, 2]));
+    jobs.push(Job::Bm(5, 4, vec![0, 1, 2, 3, 4]));
+    jobs.push(Job::Bm(7, 3, vec![0, 1, 2, 3, 4, 5, 6]));
+    jobs.push(Job::Bm(65537, 4, vec![0, 1, 65536, 2]));
+    jobs.push(Job::Bm(pbig, 4, vec![0, 1, pbig - 1, 2]));
     if !q {
+        jobs.push(Job::Bm(3, 6, vec![0, 1, 2]));
+        jobs.push(Job::Bm(5, 5, vec![0, 1, 2, 3, 4]));
         jobs.push(Job::Bm(3, 4, vec![0, 1, 2]));
         jobs.push(Job::Bm(7, 3, vec![0, 1, 2, 3, 4, 5, 6]));
         jobs.push(Job::Bm(65537, 4, vec![0, 1, 65536, 2]));
@@ -1578,6 +1643,12 @@ pub fn run(ctx: &Ctx) -> Report {
     for (n, r) in [(10usize, 40i64), (11, 30), (12, 22), (13, 18), (14, 16), (15, 12), (16, 10)] {
         for v in 0..ctx.pick(40u64, 400) {
             jobs.push(Job::CyclicDense(n, r, v));
+        }
+    }
+    // K: block anti-diagonal, dimension 10..40
+    for (a, b) in [(5usize, 5usize), (9, 9), (9, 10), (10, 9), (12, 8), (8, 12), (16, 16), (17, 9), (9, 17), (20, 20), (3, 21), (21, 3)] {
+        for v in 0..ctx.pick(3u64, 20) {
+            jobs.push(Job::AntiDiag(a, b, v));
         }
     }
     if let Some(k) = std::env::var("VERIF_C19_ONLY").ok().and_then(|s| s.parse::<usize>().ok()) {
